@@ -737,6 +737,82 @@ static void do_ed_read_bin(void) {
 }
 #endif
 
+/* ------------------------------------------------------------ aliasing of the (de)compression routines
+ * alias <curve> <fn> <args as for the plain op>: the routine is run out of place and in place (result object =
+ * operand object); both memory images, return values and error outcomes are logged - they must coincide. */
+#if defined(WITH_EPX) && defined(WITH_PP)
+static void ep2_img(const char *k, ep2_t p) {          /* field by field: the structure has padding */
+	fprintf(vh_out, ",\"%s\":{\"c\":%d", k, p->coord);
+	vh_digs("x0", p->x[0], RLC_FP_DIGS); vh_digs("x1", p->x[1], RLC_FP_DIGS);
+	vh_digs("y0", p->y[0], RLC_FP_DIGS); vh_digs("y1", p->y[1], RLC_FP_DIGS);
+	vh_digs("z0", p->z[0], RLC_FP_DIGS); vh_digs("z1", p->z[1], RLC_FP_DIGS);
+	fputc('}', vh_out);
+}
+#endif
+static void do_alias(void) {
+#ifdef WITH_EP
+	const char *fn = vh_tok[2];
+	volatile int eo = 0, en = 0; volatile long ro = -1, rn = -1;
+	memmove(&vh_tok[2], &vh_tok[3], (vh_ntok - 3) * sizeof(vh_tok[0])); vh_ntok--;   /* now tok[1] = curve, tok[2..] = args */
+	ev_begin("alias");
+	vh_str("fn", fn);
+	if (strcmp(fn, "ep_pck") == 0 || strcmp(fn, "ep_upk") == 0) {
+		int upk = fn[3] == 'u';
+		if (upk) { vh_fp_set(P->x, vh_tok[2]); fp_zero(P->y); fp_set_bit(P->y, 0, atoi(vh_tok[3])); fp_set_dig(P->z, 1); P->coord = BASIC; }
+		else set_point(P, vh_tok[2]);
+		ep_curve_get_gen(R); ep_copy(G, P);
+		chdr(); vh_ep("P", P); MARK();
+		if (upk) { VH_TRY(eo, ro = ep_upk(R, P)); VH_TRY(en, rn = ep_upk(G, G)); }
+		else { VH_TRY(eo, ep_pck(R, P)); VH_TRY(en, ep_pck(G, G)); }
+		vh_ep("o", R); vh_ep("n", G);
+	}
+#ifdef WITH_FPX
+	else if (strcmp(fn, "fp2_pck") == 0 || strcmp(fn, "fp2_upk") == 0) {
+		fp_t *d[2] = { &F2A[0], &F2A[1] };
+		fp2_t b; fp2_null(b); fp2_new(b);
+		fpx_set(d, 2, vh_tok[2]);
+		fp2_copy(b, F2A); fp_set_dig(F2C[0], 0x5a); fp_set_dig(F2C[1], 0x5b);
+		fhdr(); fp2_log("a", F2A); MARK();
+		if (fn[4] == 'u') { VH_TRY(eo, ro = fp2_upk(F2C, F2A)); VH_TRY(en, rn = fp2_upk(b, b)); }
+		else { VH_TRY(eo, fp2_pck(F2C, F2A)); VH_TRY(en, fp2_pck(b, b)); }
+		fp2_log("o", F2C); fp2_log("n", b);
+		fp2_free(b);
+	}
+#endif
+#if defined(WITH_EPX) && defined(WITH_PP)
+	else if (strcmp(fn, "ep2_pck") == 0 || strcmp(fn, "ep2_upk") == 0) {
+		ep2_t b; ep2_null(b); ep2_new(b);
+		set_point2(P2, vh_tok[2]);
+		if (fn[4] == 'u') { VH_TRY(eo, ep2_pck(P2, P2)); eo = 0; (void)vh_code(); }   /* operand of upk: a packed point */
+		ep2_copy(b, P2); ep2_curve_get_gen(R2);
+		chdr(); MARK();
+		if (fn[4] == 'u') { VH_TRY(eo, ro = ep2_upk(R2, P2)); VH_TRY(en, rn = ep2_upk(b, b)); }
+		else { VH_TRY(eo, ep2_pck(R2, P2)); VH_TRY(en, ep2_pck(b, b)); }
+		ep2_img("o", R2); ep2_img("n", b);
+		ep2_free(b);
+	}
+#endif
+#ifdef WITH_ED
+	else if (strcmp(fn, "ed_pck") == 0 || strcmp(fn, "ed_upk") == 0) {
+		ed_t b; ed_null(b); ed_new(b);
+		set_pointe(EP1, vh_tok[2]);
+		if (fn[3] == 'u') { VH_TRY(eo, ed_pck(EP1, EP1)); eo = 0; (void)vh_code(); }
+		ed_copy(b, EP1); ed_curve_get_gen(ER1);
+		ehdr(); MARK();
+		if (fn[3] == 'u') { VH_TRY(eo, ro = ed_upk(ER1, EP1)); VH_TRY(en, rn = ed_upk(b, b)); }
+		else { VH_TRY(eo, ed_pck(ER1, EP1)); VH_TRY(en, ed_pck(b, b)); }
+		ed_log("o", ER1); ed_log("n", b);
+		ed_free(b);
+	}
+#endif
+	else { fprintf(stderr, "unknown alias fn %s\n", fn); exit(2); }
+	vh_int("ro", ro); vh_int("rn", rn); vh_int("eo", eo != 0); vh_int("en", en != 0);
+	(void)vh_code();
+	vh_int("err", 0); vh_int("code", 0);
+	ev_end();
+#endif
+}
+
 static int run_case(void) {
 	const char *op = vh_tok[0];
 #define OP(n) (strcmp(op, n) == 0)
@@ -783,6 +859,7 @@ static int run_case(void) {
 	else if (OP("ep_read_bin")) do_ep_read_bin();
 	else if (OP("ep_pck")) do_ep_pck();
 	else if (OP("ep_upk")) do_ep_upk();
+	else if (OP("alias")) do_alias();
 	else return 0;
 	return 1;
 #else
